@@ -87,6 +87,9 @@ InjSet ==
   \* a wsgi_return listener REPLACES the body (appends a trailer, as a compressing listener would): the announced length is the
   \* length of what is handed over, not of what the protocol had serialized
   \cup {[NoInj EXCEPT !.fin = "rewrite", !.res = r] : r \in {"plain", "gen"}}
+  \* user code announces a length of its own, spelled in lower case (HTTP header names are case-insensitive): the response still
+  \* carries ONE Content-Length, the one of the body that is sent
+  \cup {[NoInj EXCEPT !.fin = "lclen"]}
 
 EventInj == {i \in InjSet : i.res \in {"plain", "none"}}
 EventScenarios ==
@@ -105,7 +108,7 @@ EventScenarios ==
 \* body length x declared CONTENT_LENGTH x limit x block x chunked x outcome x abort
 WsgiInj == {i \in InjSet : i.call = "ok" /\ i.ret = "ok" /\ i.ser = "ok"
                              /\ i.fn \in {"ok", "fault_client", "fault_413", "exc", "redirect"}
-                             /\ i.fin \in {"ok", "raise_wsgiclose", "rewrite"}}
+                             /\ i.fin \in {"ok", "raise_wsgiclose", "rewrite", "lclen"}}
 WsgiRpcOf(ML, BL, LEN, DECL) ==
   { s \in [cfg : [tr : {"wsgi"}, family : {"json", "soap11"}, chunked : BOOLEAN,
                   maxlen : ML, block : BL],
@@ -132,7 +135,7 @@ LateInj == [NoInj EXCEPT !.ser = "late", !.res = "gen"]
 WsgiHttpOutScenarios ==
   [cfg : [tr : {"wsgi"}, family : {"http"}, chunked : BOOLEAN, maxlen : {4}, block : {1}],
    req : [kind : {"rpc"}, class : {"valid"}, len : {1}, declared : {Absent}],
-   inj : {i \in WsgiInj : i.fin \in {"ok", "rewrite"}} \cup {LateInj}, abort : {NoAbort, 0, 1}]
+   inj : {i \in WsgiInj : i.fin \in {"ok", "rewrite", "lclen"}} \cup {LateInj}, abort : {NoAbort, 0, 1}]
 WsgiScenarios == WsgiRpcScenarios \cup WsgiWsdlScenarios \cup WsgiHttpOutScenarios
 
 Scenarios == IF ScenSet = "events" THEN EventScenarios ELSE WsgiScenarios
